@@ -159,6 +159,130 @@ def observe(binary, home, behaviours, nmsgs, addrs):
     return recs
 
 
+# ---- what a query command sends (C20.sent for queries) -----------------------------------------------------------
+def pb_decode(b, prefix=""):
+    """schema-free protobuf wire decoding into (field path, value) pairs: varints as decimal strings, length-delimited
+    payloads as text when printable, otherwise as a nested message; empty payloads are dropped"""
+    out, i = [], 0
+
+    def varint(i):
+        x, sh = 0, 0
+        while True:
+            c = b[i]
+            i += 1
+            x |= (c & 0x7F) << sh
+            sh += 7
+            if not c & 0x80:
+                return x, i
+    while i < len(b):
+        key, i = varint(i)
+        fno, wt = key >> 3, key & 7
+        name = "%s%d" % (prefix, fno)
+        if wt == 0:
+            v, i = varint(i)
+            out.append((name, str(v)))
+        elif wt == 2:
+            n, i = varint(i)
+            payload = b[i:i + n]
+            i += n
+            if not payload:
+                continue
+            if all(0x20 <= c < 0x7F for c in payload):
+                out.append((name, payload.decode()))
+            else:
+                try:
+                    out += pb_decode(payload, name + ".")
+                except Exception:
+                    out.append((name, "0x" + payload.hex()))
+        elif wt == 1:
+            out.append((name, "0x" + b[i:i + 8].hex()))
+            i += 8
+        elif wt == 5:
+            out.append((name, "0x" + b[i:i + 4].hex()))
+            i += 4
+        else:
+            raise ValueError("wire type %d" % wt)
+    return out
+
+
+def query_invocations(addr):
+    """(command, positional arguments, [(flag, value)]) typed by the user; the expected request is derived by spec/FRCli.tla"""
+    a2 = addr
+    return [
+        ("params", [], []),
+        ("list-auction", [], []), ("list-auction", [], [("status", "AUCTION_STATUS_STARTED")]), ("list-auction", [], [("type", "AUCTION_TYPE_BATCH")]),
+        ("list-auction", [], [("status", "AUCTION_STATUS_VESTING"), ("type", "AUCTION_TYPE_FIXED_PRICE")]),
+        ("list-auction", [], [("page-limit", "2"), ("page-offset", "1")]),
+        ("get-auction", ["3"], []), ("get-auction", ["0"], []),
+        ("list-allowed-bidder", [], []), ("list-allowed-bidder", [], [("auction-id", "2")]), ("list-allowed-bidder", [], [("auction-id", "1"), ("page-limit", "5")]),
+        ("get-allowed-bidder", ["1", a2], []), ("get-allowed-bidder", ["0", a2], []),
+        ("list-bid", [], []), ("list-bid", [], [("auction-id", "1")]), ("list-bid", [], [("bidder", a2)]), ("list-bid", [], [("is-matched", "true")]),
+        ("list-bid", [], [("is-matched", "false")]), ("list-bid", [], [("auction-id", "2"), ("bidder", a2), ("is-matched", "true")]),
+        ("list-bid", [], [("bidder", a2), ("is-matched", "false")]), ("list-bid", [], [("auction-id", "1"), ("page-limit", "3"), ("page-offset", "2")]),
+        ("get-bid", ["1", "2"], []), ("get-bid", ["0", "5"], []), ("get-bid", ["4", "0"], []),
+        ("list-vesting-queue", [], []), ("list-vesting-queue", [], [("auction-id", "1")]), ("list-vesting-queue", [], [("auction-id", "3"), ("page-offset", "4")]),
+    ]
+
+
+def query_sent(binary, home, addr):
+    """runs every query command against a recording RPC endpoint (no node needed) and records the request it sends"""
+    import http.server
+    import threading
+    log = []
+
+    class H(http.server.BaseHTTPRequestHandler):
+        def log_message(self, *a):
+            pass
+
+        def do_POST(self):
+            body = self.rfile.read(int(self.headers.get("Content-Length", "0")))
+            log.append(body.decode(errors="replace"))
+            try:
+                rid = json.loads(body).get("id", 1)
+            except Exception:
+                rid = 1
+            out = json.dumps({"jsonrpc": "2.0", "id": rid, "error": {"code": -32603, "message": "recorder", "data": "recorder"}}).encode()
+            self.send_response(200)
+            self.send_header("Content-Type", "application/json")
+            self.send_header("Content-Length", str(len(out)))
+            self.end_headers()
+            self.wfile.write(out)
+        do_GET = do_POST
+    srv = http.server.ThreadingHTTPServer(("127.0.0.1", 0), H)
+    port = srv.server_address[1]
+    threading.Thread(target=srv.serve_forever, daemon=True).start()
+    recs = []
+    try:
+        for cmd, pos, flags in query_invocations(addr):
+            del log[:]
+            argv = [cmd] + pos + [x for f, v in flags for x in ("--" + f, v)]
+            code, out, err = run([binary, "--home", home, "query", "fundraising"] + argv + ["--node", "tcp://127.0.0.1:%d" % port, "-o", "json"])
+            rec = {"kind": "qsent", "cmd": cmd, "argv": argv, "pos": pos, "flags": [{"n": f, "v": v} for f, v in flags], "path": "", "req": [], "exit": 1,
+                   "note": ""}
+            qs = []
+            for line in log:
+                try:
+                    j = json.loads(line)
+                except Exception:
+                    continue
+                if j.get("method") == "abci_query":
+                    qs.append(j.get("params", {}))
+            if len(qs) != 1:
+                rec["note"] = "expected exactly one abci_query, saw %d; %s" % (len(qs), (err or out)[-200:])
+            else:
+                try:
+                    rec["path"] = qs[0].get("path", "")
+                    rec["req"] = [{"k": k, "v": v} for k, v in pb_decode(bytes.fromhex(qs[0].get("data", "") or ""))]
+                    rec["exit"] = 0
+                except Exception as e:
+                    rec["note"] = "undecodable request: %s" % e
+            recs.append(rec)
+    finally:
+        srv.shutdown()
+        srv.server_close()
+    return recs
+
+
 def norm(x):
     """canonical form for comparing displayed objects with stored ones: default-valued fields dropped, numbers as strings"""
     if isinstance(x, dict):
